@@ -360,6 +360,12 @@ func indexGet(index v1.Index, r ref.Ref) (descriptor.Descriptor, error) {
 	return descriptor.Descriptor{}, errs.ErrNotFound
 }
 
+// refNameMatch reports whether a ref.name annotation names the tag,
+// either directly or as the tag of a full image name (the two forms indexGet and TagList accept).
+func refNameMatch(name, tag string) bool {
+	return name != "" && tag != "" && (name == tag || strings.HasSuffix(name, ":"+tag))
+}
+
 func indexSet(index *v1.Index, r ref.Ref, d descriptor.Descriptor) error {
 	if index == nil {
 		return fmt.Errorf("index is nil")
@@ -380,7 +386,7 @@ func indexSet(index *v1.Index, r ref.Ref, d descriptor.Descriptor) error {
 		if index.Manifests[i].Annotations != nil {
 			name = index.Manifests[i].Annotations[aOCIRefName]
 		}
-		if (name == "" && index.Manifests[i].Digest == d.Digest) || (r.Tag != "" && name == r.Tag) {
+		if (name == "" && index.Manifests[i].Digest == d.Digest) || (r.Tag != "" && refNameMatch(name, r.Tag)) {
 			index.Manifests[i] = d
 			pos = i
 			break
@@ -395,7 +401,7 @@ func indexSet(index *v1.Index, r ref.Ref, d descriptor.Descriptor) error {
 			}
 			// prune entries without any tag and a matching digest
 			// or entries with a matching tag
-			if (name == "" && index.Manifests[i].Digest == d.Digest) || (r.Tag != "" && name == r.Tag) {
+			if (name == "" && index.Manifests[i].Digest == d.Digest) || (r.Tag != "" && refNameMatch(name, r.Tag)) {
 				index.Manifests = slices.Delete(index.Manifests, i, i+1)
 			}
 		}
